@@ -323,3 +323,16 @@ Proof.
   intros s c fuel cp members depth hint line Hk Hd nd. rewrite child_fragment_S. cbv zeta. rewrite Hd.
   assert (F : is_intoish (c_kind c) = false) by (destruct (c_kind c); cbn in Hk |- *; congruence). rewrite F, Hk. reflexivity.
 Qed.
+
+(* progress: a literal that is handed a member of its own path consumes at least that member - whenever it returns at all *)
+Corollary nested_literal_makes_progress s c fuel cd m ms named cp depth hint ts rest p :
+  render_child s c fuel cd (m :: ms) named cp depth hint = Ok (ts, rest) ->
+  nth_error (child_path_strs cp) depth = Some p -> under p m = true ->
+  exists consumed, m :: ms = (m :: consumed) ++ rest.
+Proof.
+  intros E Hp Hu. destruct (nested_literal_consumes_a_prefix _ _ _ _ _ _ _ _ _ _ _ E) as [[consumed Hc] Hst].
+  destruct consumed as [|x consumed]; cbn [app] in Hc.
+  - subst rest. destruct Hst as [Hnil|[m' [r [p' [Hr [Hp' Hu']]]]]]; [discriminate Hnil|].
+    injection Hr as <- <-. rewrite Hp in Hp'. injection Hp' as <-. rewrite Hu in Hu'. discriminate Hu'.
+  - injection Hc as <- ->. exists consumed. reflexivity.
+Qed.
